@@ -37,6 +37,7 @@ type ViolOut struct {
 type VecItem struct {
 	Kind string `json:"kind"`
 	Val  string `json:"val"`
+	Tag  string `json:"tag,omitempty"`
 }
 
 type EntryOut struct {
@@ -87,6 +88,7 @@ func main() {
 	flag.Var(&defs, "D", "harness parameter name=int; repeatable")
 	flag.Var(&overrides, "override", "callee=harnessFunc override; repeatable")
 	list := flag.Bool("list", false, "list entries and exit")
+	maxSwitches := flag.Int("maxswitches", 3, "context switches per path in interleaving mode")
 	eoMode := flag.Bool("eo", false, "extract thread automata (event-order mode) instead of path exploration")
 	eoCap := flag.Int("eocap", 12, "unrolling cap per program point in EO extraction")
 	shard := flag.String("shard", "", "i/n : explore shard i of n (n a power of two)")
@@ -135,6 +137,7 @@ func main() {
 		ex.Verbose = *verbose
 		ex.LoopCap = *loopCap
 		ex.MaxPaths = *maxPaths
+		ex.MaxSwitches = *maxSwitches
 		ex.HarnessPkg = pkg
 		ex.SetupRedirects(pkg)
 		if *shard != "" {
@@ -213,7 +216,7 @@ func main() {
 				if v.Model != nil {
 					val = v.Model[r.T.Name]
 				}
-				vo.Vec = append(vo.Vec, VecItem{Kind: r.Kind, Val: decode(r.Kind, val)})
+				vo.Vec = append(vo.Vec, VecItem{Kind: r.Kind, Val: decode(r.Kind, val), Tag: r.Tag})
 			}
 			eo.Violations = append(eo.Violations, vo)
 		}
@@ -257,7 +260,7 @@ func decode(kind, val string) string {
 			return n.String()
 		}
 		return "0"
-	case "bool":
+	case "bool", "sched", "ext-bool":
 		if strings.TrimSpace(val) == "true" {
 			return "true"
 		}
